@@ -257,7 +257,9 @@ def _tokenize(text: str, state: State) -> Iterable[Token]:
 
         # now find value
         ch = stream.peek()
-        if stream.column == 0:
+        if stream.column == 0 and ch not in ("|", ">"):
+            # the next key (a block scalar header can not start a key,
+            # and YAML loaders read it as the value, also at column 0)
             pass
         elif ch in ("|", ">"):
             yield _scan_block_scalar(stream, cast(Literal["|", ">"], ch), state)
